@@ -206,7 +206,7 @@ def finish(mod, pid, tier, seed, results, wall):
                               f"code: {cex.get('detail')}")
                 continue
             key = cex.get("key")
-            match = [k for k in kf if k["obligation"] == r["ob"] and key is not None and
+            match = [k for k in kf if k["obligation"] in (r["ob"], "*") and key is not None and
                      (k["key"] == key or (k["key"].endswith("*") and key.startswith(k["key"][:-1])))]
             if match:
                 n_known += 1
